@@ -28,9 +28,20 @@ static std::string mutate_text(Rng& r, std::string t) {
     case 2: { static const char sp[] = "[]{}\",:\\"; t[r.below(t.size())] = sp[r.below(sizeof(sp) - 1)]; break; }
     case 3: t.erase(r.below(t.size()), 1); break;
     case 4: { static const char sp[] = "[]{}\",:\\0-e. "; t.insert(r.below(t.size() + 1), 1, sp[r.below(sizeof(sp) - 1)]); break; }
-    case 5: { size_t a = r.below(t.size()); t.insert(a, std::string(r.below(70), ' ')); break; }
+    case 5: { size_t a = r.below(t.size()); if (r.chance(1, 4)) t.insert(a, 1, '\0'); else t.insert(a, std::string(r.below(70), ' ')); break; }   // a stray NUL, or a run of blanks
     default: { size_t a = r.below(t.size()), b = r.below(t.size()); std::swap(t[a], t[b]); break; }
   }
+  return t;
+}
+// a byte that no JSON text contains (NUL, control, DEL, 0xff) right behind a number or literal, i.e. inside the region the on-demand
+// scanner steps over while it looks for the next ',' ']' '}' - every configuration must step over it the same way
+static std::string garbage_after_primitive(Rng& r, std::string t) {
+  std::vector<size_t> at;
+  for (size_t i = 0; i + 1 < t.size(); i++) if (strchr("0123456789el", t[i]) && strchr(",]}", t[i + 1])) at.push_back(i + 1);
+  if (at.empty()) return t;
+  static const char g[] = {'\0', '\0', '\x01', '\x7f', '\xff', '\x1f'};
+  size_t k = (size_t)r.range(1, 2);
+  for (size_t q = 0; q < k; q++) t.insert(at[r.below(at.size())], 1, g[r.below(6)]);
   return t;
 }
 static std::string gen_pspec(Rng& r, const model::GenOpts& go, int maxlen) {
@@ -154,6 +165,7 @@ static void gen_c11(uint64_t seed, uint64_t run, const std::string& tier, Plan& 
     std::string t = gen_text(r, go, (int)r.range(1, longkeys ? 2 : 3), r.chance(1, 3) ? (r.chance(1, 4) ? 300 : 70) : 3);
     if (longkeys) { JVal o = JVal::obj(); size_t m = (size_t)r.range(1, 2); for (size_t k = 0; k < m; k++) { go.big_strings = true; std::string key; do key = model::gen_key(r, go); while (key.size() < 100); if (o.find(key) < 0) o.o.emplace_back(key, model::gen_scalar(r, go)); } model::WriteOpts wo; wo.ws_rng = &r; wo.ws_max = 2; wo.escape_more = true; t.clear(); model::write(o, t, wo); }
     if (r.chance(1, 3)) t = mutate_text(r, t);
+    else if (r.chance(1, 8)) t = garbage_after_primitive(r, t);
     size_t cap = longkeys ? 900u : (tier == "thorough" ? 400u : 220u);
     if (t.size() > cap) t.resize(cap);
     size_t npaths = (size_t)r.range(1, 3);
@@ -400,6 +412,7 @@ static void gen_c15(uint64_t seed, uint64_t run, const std::string& tier, Plan& 
       op.kind = "OnDemand";
       std::string t = pad + gen_text(r, go, (int)r.range(1, 3), r.chance(1, 3) ? 70 : 3);
       if (r.chance(1, 4)) t = mutate_text(r, t);
+      else if (r.chance(1, 5)) t = garbage_after_primitive(r, t);
       op.s.push_back(t); op.s.push_back(gen_pspec(r, go, 3));
     } else if (m < 8) {
       op.kind = "UpdateLazy";
